@@ -378,3 +378,122 @@ pub fn replay_json(prop: &str, f: &Failure) -> Value {
         "message": f.message,
     })
 }
+
+// ---------------------------------------------------------------------------------------------
+// Coverage-guided campaign (cargo-fuzz / libFuzzer), thorough tier
+// ---------------------------------------------------------------------------------------------
+
+impl Ctx {
+    /// Runs `runs_per_job` x `jobs` executions of a libFuzzer target whose in-target oracles are
+    /// restricted to this property. A crashing input is decoded and re-judged in-process by the
+    /// same oracle; only then does it become a violation (with a normal replay case).
+    pub fn fuzz_campaign(&mut self, target: &str, runs_per_job: u64) {
+        if !self.failures.is_empty() {
+            return;
+        }
+        let root = crate::root();
+        let t0 = Instant::now();
+        let work = std::env::temp_dir().join(format!("gv-fuzz-{}-{}", self.prop, std::process::id()));
+        let corpus = work.join("corpus");
+        let artifacts = work.join("artifacts");
+        let _ = std::fs::remove_dir_all(&work);
+        let _ = std::fs::create_dir_all(&corpus);
+        let _ = std::fs::create_dir_all(&artifacts);
+        // seed corpus: committed files (if any) for this target
+        if let Ok(rd) = std::fs::read_dir(format!("{}/corpus/{}", root, target)) {
+            for e in rd.flatten() {
+                let _ = std::fs::copy(e.path(), corpus.join(e.file_name()));
+            }
+        }
+        let jobs = workers().max(1);
+        let target_dir = format!("{}/.target/fuzz", root);
+        let mut cmd = std::process::Command::new("cargo");
+        cmd.current_dir(&work)
+            .args(["+nightly", "fuzz", "run", "-O", "-s", "none", "--fuzz-dir", &format!("{}/fuzz", root), "--target-dir", &target_dir, target])
+            .arg(&corpus)
+            .arg("--")
+            .arg(format!("-runs={}", runs_per_job))
+            .arg(format!("-seed={}", (self.seed % 0x7fff_ffff) + 1))
+            .args(["-max_len=96", "-len_control=0", "-timeout=20", "-print_final_stats=1", "-rss_limit_mb=4096"])
+            .arg(format!("-jobs={}", jobs))
+            .arg(format!("-workers={}", jobs))
+            .arg(format!("-artifact_prefix={}/", artifacts.display()))
+            .env("RUSTFLAGS", "--cfg grex_verif")
+            .env("CARGO_NET_OFFLINE", "true")
+            .env("GV_FUZZ_PROPS", self.prop)
+            .env("GV_ROOT", &root)
+            .env("RUST_BACKTRACE", "0")
+            .stdin(std::process::Stdio::null())
+            .stdout(std::process::Stdio::piped())
+            .stderr(std::process::Stdio::piped());
+        let out = match cmd.output() {
+            Ok(o) => o,
+            Err(e) => {
+                self.infra_errors.push(format!("cannot start cargo fuzz: {}", e));
+                return;
+            }
+        };
+        // executed units: summed from the per-job logs libFuzzer writes into the cwd
+        let mut executed: u64 = 0;
+        let mut logs = 0;
+        if let Ok(rd) = std::fs::read_dir(&work) {
+            for e in rd.flatten() {
+                let name = e.file_name().to_string_lossy().to_string();
+                if name.starts_with("fuzz-") && name.ends_with(".log") {
+                    logs += 1;
+                    if let Ok(text) = std::fs::read_to_string(e.path()) {
+                        for l in text.lines() {
+                            if let Some(v) = l.strip_prefix("stat::number_of_executed_units:") {
+                                executed += v.trim().parse::<u64>().unwrap_or(0);
+                            }
+                        }
+                    }
+                }
+            }
+        }
+        let mut crashes = vec![];
+        if let Ok(rd) = std::fs::read_dir(&artifacts) {
+            for e in rd.flatten() {
+                crashes.push(e.path());
+            }
+        }
+        crashes.sort();
+        let mut slow = 0;
+        let mut unconfirmed = 0;
+        let before = self.stats.evaluations;
+        self.stats.evals(executed);
+        for c in &crashes {
+            let name = c.file_name().unwrap().to_string_lossy().to_string();
+            if name.starts_with("timeout-") || name.starts_with("slow-unit-") || name.starts_with("oom-") {
+                slow += 1;
+                continue;
+            }
+            let data = std::fs::read(c).unwrap_or_default();
+            let case = crate::fuzzdec::decode(&data);
+            let mut st = Stats::default();
+            match crate::checks::fuzz_oracle(target, &case, &mut st, Some(self.prop)).map_err(|e| e.2) {
+                Err(m) if !m.starts_with("INFRA") => {
+                    self.failures.push(Failure { sub: "fuzz".into(), case, message: m });
+                    break;
+                }
+                _ => unconfirmed += 1,
+            }
+        }
+        if executed == 0 && self.failures.is_empty() {
+            let tail: String = String::from_utf8_lossy(&out.stderr).lines().rev().take(6).collect::<Vec<_>>().join(" | ");
+            self.infra_errors.push(format!("fuzz campaign {} executed nothing (build failure?): {}", target, tail));
+        }
+        if slow > 0 {
+            self.stats.inconclusive("fuzz: timeout/slow/oom artifacts (resource, not a verdict)", || json!({"count": slow}));
+        }
+        if unconfirmed > 0 {
+            self.stats.inconclusive("fuzz: crash artifact not reproduced by the in-process oracle", || json!({"count": unconfirmed}));
+        }
+        self.extra.insert(
+            "fuzz_campaign".into(),
+            json!({"target": target, "engine": "libFuzzer via cargo-fuzz (-O, no sanitizer; grex has no unsafe code)", "jobs": jobs, "runs_per_job": runs_per_job, "executed_units": executed, "job_logs": logs, "crash_artifacts": crashes.len(), "oracle_filter": self.prop}),
+        );
+        self.note_sub(&format!("fuzz:{}", target), "coverage-guided", before, t0, !self.failures.is_empty());
+        let _ = std::fs::remove_dir_all(&work);
+    }
+}
